@@ -123,3 +123,37 @@ def check_errflow(func, producers, qual, module, rep, rule, allow_discard=()):
                           (unparse(c)[:70], 'discarded' if kind == 'discarded' else
                            'bound to %s but never accumulated/returned' % names), c.lineno)
     return n
+
+
+def reaching_defs(func):
+    """Classic reaching definitions over the statement CFG. Returns (cfg, rd_in) where
+    rd_in[node.id] maps a local name to the frozenset of keys of the statements whose binding of
+    that name may reach the node ('<param>' for parameters)."""
+    from .cfg import CFG
+    from .core import assigned_targets, key_text, params
+    cfg = CFG(func)
+    init = tuple(sorted((p, frozenset(['<param>'])) for p in params(func)))
+
+    def transfer(n, st):
+        if n.stmt is None:
+            return st
+        names = [t.id for t in assigned_targets(n.stmt) if isinstance(t, ast.Name)]
+        if not names:
+            return st
+        d = dict(st)
+        k = key_text(n.stmt)
+        for nm in names:
+            if isinstance(n.stmt, ast.AugAssign):
+                d[nm] = d.get(nm, frozenset()) | frozenset([k])
+            else:
+                d[nm] = frozenset([k])
+        return tuple(sorted(d.items()))
+
+    def join(a, b):
+        d = dict(a)
+        for k, v in b:
+            d[k] = d.get(k, frozenset()) | v
+        return tuple(sorted(d.items()))
+
+    sin, _ = cfg.forward(init, transfer, join)
+    return cfg, {k: dict(v) for k, v in sin.items()}
